@@ -92,3 +92,14 @@ func VerifC05EntryFlags(resp *dns.Msg) (eligible, hasDNSSEC, chaseSafe, hasStrip
 	}
 	return e.wireServe&wireEligible != 0, e.wireServe&wireHasDNSSEC != 0, e.wireServe&wireChaseSafe != 0, e.stripped != nil
 }
+
+// VerifC05ResetEntryLimiters drops the process-global pool of shared
+// per-entry token buckets, so the next lookup builds full ones. The pool is
+// keyed by a hash of the cache key modulo 997 and refills per second; without
+// this a case would inherit the spending of unrelated earlier cases (test
+// hygiene only: no serving logic is touched).
+func VerifC05ResetEntryLimiters() {
+	poolsMu.Lock()
+	rateLimiterPools = make(map[int]*sharedRateLimiterPool)
+	poolsMu.Unlock()
+}
